@@ -283,8 +283,8 @@ func init() {
 		Real:        real, Stubs: stubs, FaultKinds: faults,
 		Quick:    kit.Budget{Runs: 15000, WallS: 100, CaseS: 120},
 		Thorough: kit.Budget{Runs: 300000, WallS: 1500, CaseS: 300},
-		Gen:  genC19,
-		Exec: execC19,
+		Gen:      genC19,
+		Exec:     execC19,
 		Shrink: func(c C19Case) []C19Case {
 			var out []C19Case
 			for _, q := range ShrinkConfig(c.Cfg) {
